@@ -4,6 +4,7 @@ import (
 	"bytes"
 	"context"
 	"fmt"
+	"io"
 	"os"
 	"path/filepath"
 	"regexp"
@@ -17,6 +18,7 @@ import (
 	"oras.land/oras-go/v2/content/file"
 	"oras.land/oras-go/v2/content/memory"
 	"oras.land/oras-go/v2/content/oci"
+	"oras.land/oras-go/v2/errdef"
 	. "oras.land/oras-go/v2/internal/zzverif/common"
 	"oras.land/oras-go/v2/registry/remote"
 	"verif.local/engine/driver"
@@ -28,8 +30,9 @@ func TestVerif(t *testing.T) {
 	driver.Main(t, driver.Harness{
 		ID:    "C03",
 		Level: "model_checking",
-		Rule: "scenario = DAG (curated family + every U(4) shape with a subject or index) x start node x Depth 0..3 x filter (none | artifact-type regex per type present / no match / all | " +
+		Rule: "scenario = DAG (curated family + a referrer whose subject is a layer blob + every U(4) shape with a subject or index) x start node x Depth 0..3 x filter (none | artifact-type regex per type present / no match / all | " +
 			"annotation key, value regex) x source kind (memory with plain descriptors, memory with rich descriptors, OCI layout written then reopened read-write / fs.FS / tar, file store, remote Repository via Referrers API / via tag schema) x API; " +
+			"for the curated shapes on the plain memory source with Depth <= 1 additionally: x one node whose content the source lost (its Fetch answers not-found), every node in turn - a failed call is not judged, a successful one by the same oracle; " +
 			"default schedule for the sweep, every schedule within D<=2 (map-order deviations O<=1 at the roots map) for multi-root shapes. Oracle: generator's inverse edge list. " +
 			"non-trivial = distinct scenario whose start node has at least one ancestor",
 		Assumptions: []string{
@@ -58,10 +61,28 @@ type scen struct {
 	src   string
 	api   string // extgraph | ext
 	conc  int
+	lost  int // 1+id of a node the source answers not-found for on Fetch (the source lost it); 0 = none
+}
+
+// lossy is a source that lists a node everywhere but no longer has its content.
+type lossy struct {
+	srcStore
+	lost ocispec.Descriptor
+}
+
+func (l lossy) Fetch(ctx context.Context, target ocispec.Descriptor) (io.ReadCloser, error) {
+	if target.Digest == l.lost.Digest && target.MediaType == l.lost.MediaType {
+		return nil, fmt.Errorf("%s: %w", target.Digest, errdef.ErrNotFound)
+	}
+	return l.srcStore.Fetch(ctx, target)
 }
 
 func (s scen) name() string {
-	return fmt.Sprintf("%s/start=%s/depth=%d/filter=%v/src=%s/%s/conc=%d", s.d.Name, s.d.Nodes[s.start].Name, s.depth, s.f, s.src, s.api, s.conc)
+	nm := fmt.Sprintf("%s/start=%s/depth=%d/filter=%v/src=%s/%s/conc=%d", s.d.Name, s.d.Nodes[s.start].Name, s.depth, s.f, s.src, s.api, s.conc)
+	if s.lost > 0 {
+		nm += "/source-lost=" + s.d.Nodes[s.lost-1].Name
+	}
+	return nm
 }
 
 var srcKinds = []string{"memory-plain", "memory-rich", "oci-rw", "oci-fs", "oci-tar", "file", "remote-api", "remote-tags"}
@@ -101,8 +122,8 @@ func hasUp(d *DAG) bool {
 func jobs(tier string) []driver.Job {
 	var out []driver.Job
 	th := tier == "thorough"
-	// sweep over curated shapes: everything
-	for _, d := range Curated() {
+	// sweep over curated shapes (plus 'blob-subject': a referrer of a layer blob): everything
+	for _, d := range append(Curated(), Extra("blob-subject")) {
 		d := d
 		out = append(out, driver.Job{Name: "sweep/" + d.Name, Run: func(c *driver.Ctx) {
 			for start := range d.Nodes {
@@ -121,6 +142,14 @@ func jobs(tier string) []driver.Job {
 								}
 								s := scen{d: d, start: start, depth: depth, f: f, src: sk, api: api, conc: 2}
 								one(c, s, explore.Bounds{}, nil)
+								if sk == "memory-plain" && depth <= 1 {
+									// the same call on a source that lost one node's content: whatever
+									// the call reports, success still means a complete copy
+									for lost := range d.Nodes {
+										s.lost = lost + 1
+										one(c, s, explore.Bounds{}, nil)
+									}
+								}
 							}
 						}
 					}
@@ -322,6 +351,9 @@ func (s scen) pass(id int) bool {
 func (s scen) make() (func(), func(*vs.Result) *driver.Fail) {
 	d := s.d
 	src, clean := s.buildSrc()
+	if s.lost > 0 {
+		src = lossy{src, d.Nodes[s.lost-1].Desc}
+	}
 	dst := memory.New()
 	opts := oras.ExtendedCopyGraphOptions{Depth: s.depth}
 	opts.Concurrency = s.conc
@@ -349,6 +381,9 @@ func (s scen) make() (func(), func(*vs.Result) *driver.Fail) {
 		defer clean()
 		if f := driver.StdFail(res); f != nil {
 			return f
+		}
+		if err != nil && s.lost > 0 {
+			return nil // a failure is the expected answer when needed content is gone; only success is judged
 		}
 		if err != nil {
 			return &driver.Fail{Sig: "fault-free extended copy failed", Detail: s.name() + ": " + err.Error()}
